@@ -442,7 +442,12 @@ def run(ctx):
         t = time.time()
         finish_models(ctx, futs)
         log(f"[c10] waited {time.time() - t:.1f}s more for the model steps")
+    growth_part(ctx)
     ctx.assumptions += [
+        "resource growth: 'always returns' is read as 'returns at a cost that does not explode on a small input'; "
+        "the probe is the cycle-free family P(16), P(20), P(24) (5..11 KB of property list) and the measure is the "
+        "CPU time of the converting thread in clock ticks; 20 ticks (0.2 s) or more for P(24) is the finding "
+        "resource:ligkern-compile-exponential (P(30) would need minutes and tens of gigabytes)",
         "TFtoPL's table-size aborts ('The file is bigger than I can handle!', 'The lig/kern program is longer than "
         "I can handle!') are compile-time limits of Knuth's program, not part of the format: tfm_size and lig_size "
         "are taken to be unbounded",
@@ -457,6 +462,23 @@ def run(ctx):
         "panic keys: (function and whether it reads back serializer output, source file, message with numbers "
         "replaced by N, source text of the line the panic points at) -- no line numbers",
     ]
+
+
+def growth_part(ctx):
+    out = ctx.work / "growth.ndjson"
+    vh(["c10-growth", f"out={out}"], timeout=900)
+    ev = {e["n"]: e for e in read_ndjson(out)}
+    ctx.add_bound("CodecProtocol.resource_growth", len(ev), len(ev),
+                  cpu_ticks={str(n): e["cpu_ticks"] for n, e in sorted(ev.items())})
+    for n, e in sorted(ev.items()):
+        if not e["ok"]:
+            ctx.violation(f"pl_to_tfm panicked on the cycle-free family P({n})", e)
+    if ev[24]["cpu_ticks"] >= 20:
+        ctx.judge("resource:ligkern-compile-exponential",
+                  f"pl_to_tfm needs {ev[24]['cpu_ticks']} clock ticks of CPU time for the {ev[24]['pl_len']}-byte "
+                  f"property list P(24) ({ev[20]['cpu_ticks']} for P(20), {ev[16]['cpu_ticks']} for P(16)): the cost "
+                  f"quadruples with every two characters, the conversion of P(30) does not return in practice",
+                  {"part": "growth", "events": [ev[n] for n in sorted(ev)]})
 
 
 # --------------------------------------------------------------------------------------
